@@ -33,7 +33,8 @@ reg("C04",
 reg("C05",
     "End-to-end reference-model monitor on split()/AudioRegion.split(): synthesized and random PCM over all widths, channel "
     "counts, selectors, modes, partial last windows and non-integral w*rate; every region's bytes, times, parameters and "
-    "order are checked against the input and the region list against ENERGY->SEG.",
+    "order are checked against the input and the region list against ENERGY->SEG."
+    " The repository's own 579 tests run as one more workload with a passive monitor of this property's local clauses riding on every call they make.",
     "Trusts: ENERGY and SEG models; durations placed away from rounding boundaries (C06 covers those); 1e-6 dB guard band (C07 covers the boundary).",
     "runtime monitoring: reference model + byte-exact oracle on regions yielded by split()", "DESIGN.md section 7 C05")
 reg("C06",
@@ -57,22 +58,26 @@ reg("C08",
     "runtime monitoring: recorded delivery history vs latency/prefix oracle", "DESIGN.md section 7 C08")
 reg("C10",
     "Reference-model monitor (FRAME) on the full read() sequence of real AudioReaders incl. reads past the end, over 9 source "
-    "kinds, formats, block/hop/max_read on and off boundaries, with a bounded-exhaustive small scope on a bytes source.",
+    "kinds, formats, block/hop/max_read on and off boundaries, with a bounded-exhaustive small scope on a bytes source."
+    " The repository's own 579 tests run as one more workload with a passive monitor of this property's local clauses riding on every call they make.",
     "Trusts: FRAME model; block_size may be the exact or the IEEE floor; zero-sample hops not generated.",
     "runtime monitoring: reference model vs observed read() sequence", "DESIGN.md section 7 C10")
 reg("C11",
     "History monitor with an executable sequential model (SRC cursor) over random and bounded-exhaustive operation histories, "
-    "the same history run in lock-step on buffer, raw-file, wav-file and pipe-fed stdin sources.",
+    "the same history run in lock-step on buffer, raw-file, wav-file and pipe-fed stdin sources."
+    " The repository's own 579 tests run as one more workload with a passive monitor of this property's local clauses riding on every call they make.",
     "Trusts: SRC model; read(0) weak oracle; sub-sample instants resolve to either neighbour.",
     "runtime monitoring: operation histories checked against a sequential model", "DESIGN.md section 7 C11")
 reg("C16",
     "Reference-model monitor: sample/seconds/millis slicing of real regions compared with Python list slicing of the sample "
-    "list, bounded-exhaustive for small lengths and bounds, random beyond incl. huge magnitudes; TypeError cases.",
+    "list, bounded-exhaustive for small lengths and bounds, random beyond incl. huge magnitudes; TypeError cases."
+    " The repository's own 579 tests run as one more workload with a passive monitor of this property's local clauses riding on every call they make.",
     "Trusts: a*rate evaluated in IEEE doubles; ties accept either neighbour.",
     "runtime monitoring: reference model (list slicing) vs observed slices", "DESIGN.md section 7 C16")
 reg("C17",
     "Reference-model monitor on random operand trees of + sum * / join make_silence ==, byte-level expectations, operand "
-    "snapshots before/after, error types for mismatched parameters, partial samples and assignment.",
+    "snapshots before/after, error types for mismatched parameters, partial samples and assignment."
+    " The repository's own 579 tests run as one more workload with a passive monitor of this property's local clauses riding on every call they make.",
     "Trusts: bytes-level model. Division of empty regions not generated.",
     "runtime monitoring: reference model (bytes algebra) vs observed results, operand snapshots", "DESIGN.md section 7 C17")
 reg("C18",
